@@ -324,7 +324,47 @@ def rule_handlers(ctx, m):
            'all re-raise' if n else 'none: rejections propagate unchanged', nontrivial=False)
 
 
+def rule_ctx_init(ctx, m):
+    """R5: a context constructor may read the fields its base-class constructor
+    initialises only after calling it; otherwise building the rejection message
+    itself raises AttributeError and masks the reason."""
+    prog = ctx.prog
+    base = m.cls('Context')
+    base_fields = set(base.annotated_fields())
+    n = 0
+    for c in prog.subclasses_of('Context'):
+        ini = c.methods.get('__init__')
+        if c is base or ini is None:
+            continue
+        g = CFG(ini.node)
+        dom = g.dominators(edge_ok=lambda a, b, lab: lab != 'e')
+        sup = [x for x in g.nodes if x.stmt is not None and x.kind == 'stmt' and any(
+            isinstance(cc.func, ast.Attribute) and cc.func.attr == '__init__' and isinstance(cc.func.value, ast.Call)
+            and call_name(cc.func.value) == 'super' for cc in calls_in(x.stmt))]
+        own = {t.attr for t, st, how in stores_to(ini.node) if isinstance(t, ast.Attribute) and norm(t.value) == 'self'}
+        for x in g.nodes:
+            if x.stmt is None:
+                continue
+            exprs = [x.stmt] if x.kind == 'stmt' else [getattr(x.stmt, 'test', None)]
+            for e in exprs:
+                if e is None:
+                    continue
+                for a in ast.walk(e):
+                    if isinstance(a, ast.Attribute) and isinstance(a.ctx, ast.Load) and norm(a.value) == 'self' \
+                            and a.attr in base_fields and a.attr not in own:
+                        n += 1
+                        ok = bool(sup) and sup[0].id in dom[x.id]
+                        ctx.ob('C17-R5', ini, f'read of self.{a.attr} at `{x.text()[:50]}`', ok,
+                               'after super().__init__()' if ok else
+                               (f'self.{a.attr} is set by the base Context constructor, which has not run yet at this point '
+                                '(it is only reached on a rejection path): building the error raises AttributeError and '
+                                'hides the real reason'), line=a.lineno)
+    ctx.ob('C17-R5', (m.relpath, 'Context'), f'{n} reads of base-initialised fields in context constructors', True,
+           'each checked against the position of super().__init__()', nontrivial=False)
+
+
 def run(ctx):
+    rule_ctx_init(ctx, ctx.prog.module(BASE))
     m = ctx.prog.module(BASE)
     rule_pairing(ctx, m)
     rule_persistent(ctx, m)
